@@ -116,6 +116,14 @@ fn typst_markup_constants_distinct_within_groups() {
         COPULA_IMPLICATION_CONCURRENT, COPULA_IMPLICATION_RETROSPECTIVE, COPULA_EQUIVALENCE_PREDICTIVE, COPULA_EQUIVALENCE_CONCURRENT]));
     assert!(distinct(&[PUNCTUATION_JUDGEMENT, PUNCTUATION_GOAL, PUNCTUATION_QUESTION, PUNCTUATION_QUEST]));
     assert!(distinct(&[STAMP_ETERNAL, STAMP_PAST, STAMP_PRESENT, STAMP_FUTURE, STAMP_FIXED]));
+    // "layout by arity": the bracket-only form (empty connecter) is reserved for the two sets, so
+    // every connecter and copula constant must be non-empty
+    for c in [CONNECTER_EXT_INTERSECT, CONNECTER_INT_INTERSECT, CONNECTER_EXT_DIFFERENCE, CONNECTER_INT_DIFFERENCE, CONNECTER_PRODUCT,
+        CONNECTER_EXT_IMAGE, CONNECTER_INT_IMAGE, CONNECTER_CONJUNCTION, CONNECTER_DISJUNCTION, CONNECTER_NEGATION, CONNECTER_SEQ_CONJUNCTION, CONNECTER_PAR_CONJUNCTION,
+        COPULA_INHERITANCE, COPULA_SIMILARITY, COPULA_IMPLICATION, COPULA_EQUIVALENCE, COPULA_IMPLICATION_PREDICTIVE,
+        COPULA_IMPLICATION_CONCURRENT, COPULA_IMPLICATION_RETROSPECTIVE, COPULA_EQUIVALENCE_PREDICTIVE, COPULA_EQUIVALENCE_CONCURRENT] {
+        assert!(!c.is_empty());
+    }
     assert!(BRACKETS_EXT_SET.0 != BRACKETS_INT_SET.0 && BRACKETS_COMPOUND.0 != BRACKETS_STATEMENT.0
         && BRACKETS_COMPOUND.0 != BRACKETS_EXT_SET.0 && BRACKETS_COMPOUND.0 != BRACKETS_INT_SET.0);
 }
